@@ -102,8 +102,27 @@ def cases():
             yield [STMTS[a], STMTS[b]]
 
 
+def keyword_named_variables_case():
+    """a variable may be named like an attribute keyword (`value`, `target`, `save`, `data`, ...): an assignment to it is an executable statement, its function references are calls;
+    and a module is found by a USE statement in any letter case (its arrays are then variables, its procedures resolved calls)"""
+    files = {"src/tables.f90": ("module Tables\n  implicit none\n  real :: weights(10)\ncontains\n  real function interp(x)\n    real :: x\n    interp = x\n  end function interp\nend module Tables\n"),
+             "src/drv.f90": ("module drv\n  implicit none\ncontains\n  subroutine driver(x)\n    USE TABLES\n    real :: x, value, target, save, data\n    value = scale_it(x)\n    target = offset_it(value) + weights(2)\n"
+                             "    save = interp(x)\n    data = value\n    call report(data)\n  end subroutine driver\n  real function scale_it(x)\n    real :: x\n    scale_it = x\n  end function scale_it\n"
+                             "  real function offset_it(x)\n    real :: x\n    offset_it = x\n  end function offset_it\n  subroutine report(x)\n    real :: x\n  end subroutine report\nend module drv\n")}
+    try:
+        proj = realrun.build_project(files)
+        d = next(p for m in proj.modules for p in m.subroutines if p.name == "driver")
+        got = sorted((c if isinstance(c, str) else c.name, "unresolved" if isinstance(c, str) else "resolved") for c in d.calls)
+    except Exception as e:
+        got = f"{type(e).__name__}: {e}"
+    want = [("interp", "resolved"), ("offset_it", "resolved"), ("report", "resolved"), ("scale_it", "resolved")]
+    if got != want:
+        return {"confirmed": True, "input": {"files": files}, "actual": got, "expected": want, "how": "real Project + correlate: calls of a procedure whose variables are named like attribute keywords and whose USE statement is in upper case"}
+    return None
+
+
 def search():
-    hit = extra_vartypes_case()
+    hit = extra_vartypes_case() or keyword_named_variables_case()
     if hit:
         return hit
     for group in cases():
